@@ -80,6 +80,9 @@ class Mod:
         self.struct_normalised = StructNorm(self.tree).run()
         self.evolved = Evolve(name, self.tree, path=self.path).run()
         self.inlined = Inliner(name, self.tree, path=self.path).run()
+        if self.evolved or self.inlined:
+            # formats that were named constants / helper results a moment ago are literals now
+            self.struct_normalised += StructNorm(self.tree).run()
         from inline import split_tuple_assigns
         self.tuple_split = split_tuple_assigns(self.tree)
         set_parents(self.tree)
